@@ -49,6 +49,7 @@ EventOK(e) ==
          /\ LET f == LocalFields(e.t)  g == LocalFields(e.res) IN
             /\ DatePart(g) = CivilFromDays(NormDays(f[1] + e.dy, f[2] + e.dm, f[3] + e.dd))
             /\ g[4] = f[4] /\ g[5] = f[5] /\ g[6] = f[6]
+            /\ e.res[3] % 1000 = e.t[3] % 1000          \* the part below the second travels with the time of day (zone offsets are whole seconds)
     [] e.ev = "now" -> IsTime(e.res) /\ InstLE(Inst(e.t0), Inst(e.res)) /\ InstLE(Inst(e.res), Inst(e.t1))
     [] e.ev = "today" ->
          /\ IsTime(e.res)
